@@ -153,6 +153,28 @@ def replay(beh: list[dict]) -> tuple[list, int, int]:
         if sh[0] != ev['brace'] or sh[1] != [c['k'] for c in ev['comps']]:
             drift += 1
             break     # concrete form diverged from the implementation-shaped layer: stop (not a verdict)
+    if not findings:
+        # from the form reached: the raw-level setters refuse a node that lives elsewhere in the document, before
+        # the braces or the components have been touched (C19)
+        pre_shape = shape_real(cost)
+        main = [k for k in pre_shape[1] if k not in ('Date', 'Str', 'Star')]
+        for attr, donor in (('raw_number_per', txn.raw_postings[0].raw_number), ('raw_number_total', txn.raw_postings[0].raw_number),
+                            ('raw_currency', txn.raw_postings[0].raw_currency)):
+            fp = f'cost/{pre_shape[0]}:{"+".join(main) or "empty"}/{attr}=attached'
+            before_text = tree.text_of(f)
+            try:
+                setattr(cost, attr, donor)
+                findings.append((fp, 'refusal', f'{attr} = <node of another posting> was accepted: {tree.text_of(f)[len(HEAD):-len(TAIL)]!r}', len(beh)))
+                break
+            except ValueError:
+                pass
+            except Exception as e:  # noqa: BLE001
+                findings.append((fp, 'refusal', f'{attr} = <attached> raised {type(e).__name__}: {e}', len(beh)))
+                break
+            if tree.text_of(f) != before_text:
+                findings.append((fp, 'refusal', f'refused {attr} = <attached> changed the document: {before_text[len(HEAD):-len(TAIL)]!r} -> '
+                                                f'{tree.text_of(f)[len(HEAD):-len(TAIL)]!r}', len(beh)))
+                break
     return findings, drift, steps
 
 
